@@ -66,6 +66,14 @@ class CountingFile(io.BytesIO):
         self.max_bytes = 64 * len(data) + (64 << 20)
         self.max_calls = 64 * (len(data) // 2048 + 1) + 100000
         self.log = log
+        self.like_os_file = False
+
+    def seek(self, pos, whence=0):
+        # a file opened from the file system raises OSError (EINVAL) for a negative absolute position where io.BytesIO raises
+        # ValueError; half of the cases behave like the former, so that both spellings of "field points before the image" are seen
+        if self.like_os_file and whence == 0 and pos < 0:
+            raise OSError(22, 'Invalid argument')
+        return super().seek(pos, whence)
 
     def read(self, n=-1):
         pos = self.tell()
@@ -404,6 +412,7 @@ def newval(v, rk, rnd, n, fields, fk, img, width):
 def open_one(data):
     """Returns None (ok / documented exception) or (sig, msg)."""
     fp = CountingFile(data)
+    fp.like_os_file = (len(data) + data[min(len(data), 33000) - 1 if data else 0]) % 2 == 1 if data else False
     iso = pycdlib.PyCdlib()
     try:
         iso.open_fp(fp)
